@@ -244,6 +244,7 @@ type scen struct {
 	ports  map[string]int
 
 	names  []string
+	wfailFrom int // control-connection writes fail from this dequeued message on; -1 never
 	reqs   []string
 	phases []string
 	works  []*workRec
@@ -271,11 +272,14 @@ func (sc *scen) fail(key, what string) {
 	sc.fails = append(sc.fails, map[string]any{"key": key, "what": what, "case": strings.Join(sc.ops, " ")})
 }
 
+// steps renders a phase schedule; thread 0 is always the session's send loop, which gets its turn at the
+// end of every phase (the checkpoint waits until the control messages have arrived).
 func steps(pairs ...int) string {
 	var it []string
 	for i := 0; i+1 < len(pairs); i += 2 {
 		it = append(it, fmt.Sprintf("(%d, %d)", pairs[i], pairs[i+1]))
 	}
+	it = append(it, fmt.Sprintf("(0, %d)", 2*runAll))
 	return hx.List(it)
 }
 
@@ -618,8 +622,8 @@ func (sc *scen) render() string {
 		}
 		users = append(users, fmt.Sprintf("(%d, %d)", u.tid, code))
 	}
-	return fmt.Sprintf("CPool %s %d %s %s %s %s %s %s %s", hx.Z(int64(sc.cpc)), sc.w.smax, hx.List(sc.reqs), hx.List(dead),
-		hx.List(sc.phases), hx.Bool(sc.torn), hx.List(conns), hx.List(users), hx.List(starts))
+	return fmt.Sprintf("CPool %s %s %s %s %s %s %s %s %s %s", hx.Z(int64(sc.cpc)), hx.Z(int64(sc.w.smax)), hx.List(sc.reqs), hx.List(dead),
+		hx.Z(int64(sc.wfailFrom)), hx.List(sc.phases), hx.Bool(sc.torn), hx.List(conns), hx.List(users), hx.List(starts))
 }
 
 func (sc *scen) cleanup() {
@@ -648,6 +652,8 @@ var poolCounts = []int{-100, -3, 0, 0, 1, 1, 2, 3, 4, 5, 8, 50}
 // runScenario returns the Coq case (or "" if the scenario could not be set up).
 func (w *worker) runScenario(g *hx.Gen, kind int, caseNo int) (*scen, string) {
 	sc := &scen{g: g, w: w, ports: map[string]int{}}
+	sc.addThread("RSendLoop")
+	sc.wfailFrom = -1
 	sc.names = []string{fmt.Sprintf("pa%d", caseNo), fmt.Sprintf("pb%d", caseNo)}
 	sc.cpc = poolCounts[g.Intn(len(poolCounts))]
 	p, resp, err := w.srv.Login(hx.LoginOpts{PoolCount: sc.cpc})
@@ -685,7 +691,7 @@ func (w *worker) runScenario(g *hx.Gen, kind int, caseNo int) (*scen, string) {
 		}
 	}()
 	sc.ops = append(sc.ops, fmt.Sprintf("login(pc=%d,max=%d)", sc.cpc, w.smax))
-	sc.checkpoint("[]") // right after Start: the advance requests
+	sc.checkpoint(steps()) // right after Start: the advance requests
 	pc := sc.ctl.VerifC11PoolCount()
 	capacity := sc.ctl.VerifC11PoolCap()
 
@@ -831,6 +837,7 @@ func openSockets() int {
 // by one (our user socket; the server's end of it is closed again when the loop gives up).
 func retryCloseCheck(w *worker, g *hx.Gen) []map[string]any {
 	sc := &scen{g: g, w: w, ports: map[string]int{}, cpc: 2}
+	sc.addThread("RSendLoop")
 	p, _, err := w.srv.Login(hx.LoginOpts{PoolCount: 2})
 	if err != nil || p == nil {
 		return []map[string]any{{"key": "setup", "what": "retryCloseCheck login failed", "case": "retry"}}
@@ -874,10 +881,12 @@ func retryCloseCheck(w *worker, g *hx.Gen) []map[string]any {
 }
 
 func runPool(cfg *hx.RunCfg) error {
-	hx.Quiet()
+	quiet()
 	hooks.install()
 	nw := 12
-	maxes := []int{5, 2, 1, 3}
+	// transport.maxPoolCount as configured: 0 is replaced by the default (5) in Complete; negative values are
+	// accepted by the loader and the validator and mean "no pool"
+	maxes := []int{5, 2, 1, 3, -1, 0}
 	pg, err := startPluginGate("127.0.11.250")
 	if err != nil {
 		return err
@@ -894,6 +903,7 @@ func runPool(cfg *hx.RunCfg) error {
 			return err
 		}
 		w.srv = s
+		w.smax = int(s.Cfg.Transport.MaxPoolCount) // after Complete
 		workers = append(workers, w)
 	}
 	preFails := retryCloseCheck(workers[0], hx.NewGen(cfg.Seed))
